@@ -1,13 +1,16 @@
 #!/usr/bin/env python3
 """import_seeded.py <id> [<name>]: copy /tmp/seed/<id>-out into /verif/seeded/<name or id> and record the demo's directory."""
 import json, os, shutil, glob, sys
-i = sys.argv[1]; name = sys.argv[2] if len(sys.argv) > 2 else i
+import subprocess
+name = sys.argv[1]; i = name[:3]
 src = '/tmp/seed/%s-out' % name; dst = '/verif/seeded/%s' % name
 os.makedirs(dst, exist_ok=True)
 for f in os.listdir(src):
     shutil.copy(os.path.join(src, f), dst)
 m = json.load(open(dst + '/meta.json'))
 c = glob.glob('/tmp/seed/%s/**/zz_seeded_demo*_test.go' % name, recursive=True)
+m['property'] = i
+m['base_commit'] = subprocess.run(['git', '-C', '/tmp/seed/%s' % name, 'rev-parse', '--short', 'HEAD'], capture_output=True, text=True).stdout.strip()
 m['demo_dir'] = os.path.dirname(c[0])[len('/tmp/seed/%s/' % name):]
 json.dump(m, open(dst + '/meta.json', 'w'), indent=1)
 print(name, m['demo_dir'])
